@@ -29,8 +29,9 @@ import (
 //     normalised name, the data passed through), the targets of every BatchMode broadcast, the values of Enabled() and
 //     BatchLevel(), the maps copied out by RegisterFromNotifier, and in the end the three maps, the current batch, the
 //     level and the flag of the real notifier (white-box dump);
-//   - a free-running phase with properly paired StartBatch/EndBatch per goroutine: at the end BatchMode(true) and
-//     BatchMode(false) counts are equal for every target, no delivery is duplicated, one recovery report per panic.
+//   - a free-running phase (StartBatch/EndBatch in any order, no Reset/SetEnabled), then the level drained to 0:
+//     BatchMode(true) and BatchMode(false) counts are equal for every target, no delivery is duplicated, one recovery
+//     report per panic.
 //
 // A deadlock (60 s), a panic escaping the notifier, or any judge failure is a FAIL line.
 type raceArea struct{}
@@ -374,6 +375,24 @@ func (t *raceBT) BatchMode(start bool) {
 
 var raceNames = []string{"a", "a.b", "a.bc", "a.b.c", "b", "..a..b.", "foo.bar", "foo.barn", "", "a...b"}
 
+// genBatchOp: rounds that concentrate on the batch bookkeeping (level, current batch, batch-target set).
+func genBatchOp(r *hx.Rng) *opRec {
+	switch x := r.Intn(100); {
+	case x < 36:
+		return &opRec{kind: "start"}
+	case x < 72:
+		return &opRec{kind: "end"}
+	case x < 80:
+		return &opRec{kind: "level"}
+	case x < 90:
+		return &opRec{kind: "reg", t: hx.Pick(r, []int{1, 3, 4}), prio: r.Intn(3), names: []string{"a"}}
+	case x < 96:
+		return &opRec{kind: "unreg", t: hx.Pick(r, []int{1, 3, 4})}
+	default:
+		return &opRec{kind: "enable", flag: r.Intn(3) != 0}
+	}
+}
+
 func genRaceOp(r *hx.Rng) *opRec {
 	switch x := r.Intn(100); {
 	case x < 24:
@@ -617,14 +636,41 @@ func raceRun(seed uint64, g, rounds int) (out string) {
 		if got := s.n.VerifDump(s.idOf); got != cur.dump(true) {
 			return fmt.Sprintf("FAIL round %d starts from %s, reference %s", round, got, cur.dump(true))
 		}
-		progs := make([][]*opRec, g)
+		batchRound := round%3 == 2
+		if batchRound { // start from a state in which the batch bookkeeping matters: enabled, a batch target, level <= 1
+			var fix []*opRec
+			if !cur.enabled {
+				fix = append(fix, &opRec{kind: "enable", flag: true})
+			}
+			if len(cur.batch) == 0 {
+				fix = append(fix, &opRec{kind: "reg", t: 1, prio: 0, names: []string{"a"}}, &opRec{kind: "reg", t: 4, prio: 0, names: []string{"a"}})
+			}
+			for l := cur.level; l > 1; l-- {
+				fix = append(fix, &opRec{kind: "end"})
+			}
+			for _, o := range fix {
+				s.exec(o)
+				if !s.apply(cur, o) {
+					return fmt.Sprintf("FAIL round %d: sequential %s disagrees with the reference", round, o)
+				}
+			}
+		}
+		ng := g
+		if batchRound {
+			ng = 4
+		}
+		progs := make([][]*opRec, ng)
 		for k := range progs {
 			most := 3 // at most 9 calls per round: the search for an order stays small even when it must fail
-			if g > 3 {
+			if ng > 3 {
 				most = 2
 			}
 			for i, n := 0, r.Range(1, most); i < n; i++ {
-				progs[k] = append(progs[k], genRaceOp(r))
+				if batchRound {
+					progs[k] = append(progs[k], genBatchOp(r))
+				} else {
+					progs[k] = append(progs[k], genRaceOp(r))
+				}
 			}
 		}
 		var wg sync.WaitGroup
@@ -671,8 +717,10 @@ func raceRun(seed uint64, g, rounds int) (out string) {
 		}
 		cur = next // the next round starts from the real state (the final dump was compared)
 	}
-	// ---- free-running phase with paired batches: balance of BatchMode(true)/(false) per target
-	s.n.SetEnabled(true)
+	// ---- free-running phase: StartBatch/EndBatch in any order from all goroutines (no Reset, no SetEnabled); every
+	// outermost start broadcasts true to a snapshot and the end that brings the level back to 0 broadcasts false to the
+	// same snapshot, so after draining the level to 0 the counts per target are equal
+	s.exec(&opRec{kind: "enable", flag: true})
 	for s.n.BatchLevel() > 0 {
 		s.exec(&opRec{kind: "end"})
 	}
@@ -681,7 +729,7 @@ func raceRun(seed uint64, g, rounds int) (out string) {
 		s.w.falseCt[i].Store(0)
 	}
 	var wg sync.WaitGroup
-	for k := 0; k < g+1; k++ {
+	for k := 0; k < 4; k++ {
 		wg.Add(1)
 		rr := hx.NewRng(seed*977 + uint64(k))
 		go func() {
@@ -691,38 +739,30 @@ func raceRun(seed uint64, g, rounds int) (out string) {
 					escaped.Add(1)
 				}
 			}()
-			depth := 0
-			for i := 0; i < 400; i++ {
+			for i := 0; i < 1200; i++ {
 				switch x := rr.Intn(100); {
-				case x < 25:
+				case x < 12:
 					s.exec(&opRec{kind: "reg", t: rr.Intn(raceTargets), prio: rr.Intn(3), names: []string{hx.Pick(rr, raceNames)}})
-				case x < 40:
+				case x < 18:
 					s.exec(&opRec{kind: "unreg", t: rr.Intn(raceTargets)})
-				case x < 65:
+				case x < 30:
 					s.exec(&opRec{kind: "notify", names: []string{hx.Pick(rr, raceNames)}, data: i})
-				case x < 82:
+				case x < 62:
 					s.exec(&opRec{kind: "start"})
-					depth++
-				case x < 86:
+				case x < 64:
 					s.exec(&opRec{kind: "merge"})
 				default:
-					if depth > 0 {
-						s.exec(&opRec{kind: "end"})
-						depth--
-					}
+					s.exec(&opRec{kind: "end"})
 				}
-			}
-			for ; depth > 0; depth-- {
-				s.exec(&opRec{kind: "end"})
 			}
 		}()
 	}
 	wg.Wait()
+	for s.n.BatchLevel() > 0 {
+		s.exec(&opRec{kind: "end"})
+	}
 	if escaped.Load() > 0 {
 		return "FAIL a panic escaped the notifier"
-	}
-	if l := s.n.BatchLevel(); l != 0 {
-		return fmt.Sprintf("FAIL batch level %d after all goroutines closed their batches", l)
 	}
 	for i := range s.w.trueCt {
 		if a, b := s.w.trueCt[i].Load(), s.w.falseCt[i].Load(); a != b {
